@@ -553,7 +553,21 @@ def rule(prop):
 
 
 def partial_clauses(prop):
-    return []
+    return [
+        "merge_children (children appended to the destination, source node removed): no theorem; decided by the "
+        "correspondence and by prop_C08 (Spec.edit_cs) on every implementation output",
+        "merge_leaves (leaves appended, inner nodes stay): no theorem; same",
+        "delete_children: theorem C08_delete_children covers the plain shift to an absent destination; delete_children "
+        "combined with copy / overriding / merge flags / replace: no theorem; same",
+        "replace_position (shift_and_replace / copy_and_replace keep the replaced node's sibling position): no theorem; same",
+        "override / shift with one node inside the other, from == to with a merge flag, copy into the source subtree: "
+        "no theorem; same (prop_C08 is lenient for destinations inside the source subtree)",
+        "string layer (rstrip/replace/split of the path arguments, find_path / find_full_path resolution): the theorems "
+        "C08_shift_paths, C08_copy_keeps_source, C08_override, C08_delete start from resolved references (cs_core); "
+        "C08_multi_is_sequence and C08_tree_to_tree_source_untouched are about whole calls on path strings",
+        "known finding K3-C08: with a multi-character `sep` the argument normalisation `path.rstrip(sep)` strips a character "
+        "set, so a valid pair whose last name ends in a character of sep fails (NotFoundError)",
+    ]
 
 
 def trusted_base(prop):
